@@ -13,6 +13,9 @@ SORTMOD = "acnportal.algorithms.sorted_algorithms."
 SORTFNS = [SORTMOD + f for f in ("first_come_first_served", "last_come_first_served", "earliest_deadline_first", "least_laxity_first",
                                  "largest_remaining_processing_time")]
 GREEDY = [SA + "sorting_algorithm"]
+PREP = "acnportal.algorithms.preprocessing."
+PREPROC = [PREP + f for f in ("remove_finished_sessions", "enforce_pilot_limit", "reconcile_max_and_min", "expand_max_min_rates", "apply_upper_bound_estimate")] \
+          + ["acnportal.algorithms.utils.remaining_amp_periods", "acnportal.algorithms.utils.infrastructure_constraints_feasible"]
 SIM = "acnportal.acnsim.simulator.Simulator."
 AE = "acnportal.acnsim.events.acndata_events."
 EVT = "acnportal.acnsim.events.event."
@@ -209,7 +212,7 @@ PLAN = {
     ),
     "C07": dict(
         level="other",
-        functions=SEARCH + GREEDY + [IFC + "remaining_amp_periods"],
+        functions=SEARCH + GREEDY + [IFC + "remaining_amp_periods"] + PREPROC,
         bounded=[dict(module="rt.algomon", fn="algo_monitor", label="every schedule() call of greedy / round-robin during seeded simulations"),
                  dict(module="rt.drivers", fn="sim_monitor", label="simulation-level corollaries under the sorted algorithms", schedulers=["sorted", "rr"])],
         text="PROVED (all vectors, level lists, brackets; relative to the algorithm-side feasibility predicate FEAS): the two search procedures every "
